@@ -298,6 +298,9 @@ pub fn run(cx: &mut Cx) {
             let truth: std::collections::HashSet<&String> = exps.iter().collect();
             let take = cx_take(&mut r, exps.len(), 10);
             for &i in &take {
+                // the expansion's own text (tail as written in the pattern):
+                // it matches only if it matches itself *as a pattern*
+                names.push(format!("{}{}", exps[i], tail));
                 for suf in sufs.iter() {
                     names.push(format!("{}{}", exps[i], suf));
                 }
@@ -383,7 +386,10 @@ pub fn run(cx: &mut Cx) {
             shapes.push((p, vec!["x-1.0".into(), "y-1.0".into(), "z-1.0".into(), "xy-1.0".into(), "-1.0".into()], "nested-alternatives"));
         }
         let max2 = cx.pick_tier(4usize, 8, 12, 13);
-        for n in 1..=max2 {
+        // ... and one pattern with 2^17 (quick) / 2^18 (thorough) expansions, past
+        // any plausible work limit, matched by late expansions only
+        let huge = cx.pick_tier(0usize, 0, 17, 18);
+        for n in (1..=max2).chain((huge > 0).then_some(huge)) {
             // 2^n expansions; the last one in expansion order is all 'b'
             let p = format!("{}-1.0", "{a,b}".repeat(n));
             let mixed: String = (0..n).map(|i| if i % 2 == 0 { 'b' } else { 'a' }).collect();
